@@ -1,7 +1,7 @@
 """Contracts for core/http_transport.py (C17: what leaves the transport; C06: non-2xx always raises, class-correct)."""
 from pyvc.contracts import contract
 from pyvc.spec import (dict_set, dict_merge, dict_without, sub_dict, implies, call_count, call_kwargs, call_arg, call_result,
-                       is_str_dict)
+                       is_str_dict, uf, text_image_of)
 from contracts.auth import effect_of, put, submaps_ok
 from pyopenapi_gen.core.exceptions import ClientError, HTTPError, ServerError
 from pyopenapi_gen.core.auth.plugins import ApiKeyAuth, BearerAuth, HeadersAuth, OAuth2Auth
@@ -16,9 +16,22 @@ def defaults_of(t):
     return t._default_headers if t._default_headers else {}
 
 
+def header_text(v):
+    """a header value as it leaves: text stays as it is; a typed value (int, bool, list) is rendered as text by a function of the value alone"""
+    return v if isinstance(v, str) else uf("fn.header_text", v)
+
+
+def header_texts(d):
+    """a header map as it leaves (the transport's rendering of typed values as text, a function of the map alone; pinned down by the contract of
+    `_header_texts`: same names, text values unchanged)"""
+    return uf("fn.header_texts", d)
+
+
 def base_headers(t, kwargs):
-    """per-request headers over the defaults (later wins per exact key)."""
-    return dict_merge(defaults_of(t), sub_dict(kwargs, "headers"))
+    """per-request headers (each value as text) over the defaults (later wins per exact key)."""
+    if "headers" in kwargs and isinstance(kwargs["headers"], dict):
+        return dict_merge(defaults_of(t), header_texts(kwargs["headers"]))
+    return defaults_of(t)
 
 
 def auth_args(t, kwargs):
@@ -124,6 +137,37 @@ AUTH_VARIANTS = {
     "apikey-invalid": {"shape": {"self._auth": "obj:ApiKeyAuth"}, "assume": _apikey_invalid_rq},
     "other-plugin": {"shape": {"self._auth": "opaque"}, "assume": _abstract_plugin},
 }
+
+
+# ---- _header_text: text in, the same text out; anything else is a function of the value alone ---------------
+c = contract(f"{T}:_header_text", props=["C17", "C04"], abstract_unsupported=True, abstract_comprehensions=True, functional="header_text")
+
+@c.ensures(note="a str header value is never altered")
+def ht_text_unchanged(value, result):
+    return implies(isinstance(value, str), result == value)
+
+@c.ensures(note="OpenAPI 'simple' style for the scalar kinds httpx would refuse: booleans as true / false, integers in decimal")
+def ht_scalars(value, result):
+    if isinstance(value, bool):
+        return result == ("true" if value else "false")
+    if isinstance(value, int):
+        return result == str(value)
+    return True
+
+
+c = contract(f"{T}:_header_texts", props=["C17", "C04"], types={"headers": "dict"}, functional="header_texts", nothrow=True)
+
+@c.ensures(note="a map again")
+def hts_is_map(headers, result):
+    return isinstance(result, dict)
+
+@c.ensures(note="same header names; each value is the text of the caller's value (a str is never altered)")
+def hts_pointwise(headers, result):
+    return text_image_of(result, headers, "fn.header_text")
+
+@c.ensures(note="a map of text values leaves exactly as given")
+def hts_text_map_unchanged(headers, result):
+    return implies(is_str_dict(headers), result == headers)
 
 
 # ---- _prepare_headers: helper contract derived from the code, strong enough to carry C17 -----------------
